@@ -11,6 +11,8 @@ RULE = ("part ctl_cell: controlled schedules (real threads, one runnable at a ti
         "and 2 call_fn_future_awaiters wait repeatedly on 3 external futures / their internal futures that are already resolved or pending, futures re-created "
         "in between, promises called with value / exception / drop, plus the 2x2x2x2 matrix (style x resolved|pending for three consecutive waits); "
         "non-trivial there = some awaiter object answered at least two waits. "
+        "part seq_prom (shared with C01): promise objects overwritten by move assignment / destroyed (also by stack unwinding) / dropped / bound while callback and "
+        "coroutine waiters are parked on their futures: the release is observed in the line of that very op. "
         "non-trivial = at least 3 thread switches in the executed trace; distinct = distinct (threads, schedule)")
 SCOPE = ("promise::claim/set_value/set_exception/drop/~promise/move ctor, future::set/resolve/value/has_value, awaiter::resume_chain_set_ready/"
          "resume_chain_lk/subscribe_check_ready, co_awaiter await_ready/await_suspend/await_resume/sync, sync_awaiter, awaitable_bool, "
@@ -22,8 +24,10 @@ ASSUMPTIONS = ["the destructor of the shared promise object runs after every cal
 def gen(seed, tier): return cellcommon.gen(seed, tier, "waiters")
 def gen_stress(seed, tier): return cellcommon.gen_stress(seed, tier)
 def gen_aw(seed, tier): return cellcommon.gen_aw(seed, tier)
+def gen_promw(seed, tier): return cellcommon.gen_prom(seed + 1000, tier, waiters=True)
 nontrivial = cellcommon.nontrivial
 signature = cellcommon.signature
 PARTS = [{"name": "ctl_cell", "harness": "ctl_cell.cpp", "gen": gen, "no_shrink": False, "timeout_case": 10},
          {"name": "seq_aw", "harness": "seq_aw.cpp", "gen": gen_aw, "no_shrink": False, "timeout_case": 10},
+         {"name": "seq_prom", "harness": "seq_prom.cpp", "gen": gen_promw, "no_shrink": False, "timeout_case": 10},
          {"name": "stress_cell", "harness": "stress_cell.cpp", "gen": gen_stress, "no_shrink": True, "timeout_case": 30}]
